@@ -792,8 +792,10 @@ Definition call_kinds : list kind :=
 Definition open_progs : list (list op) :=
   [[]; [RM]; [IT]; [RI]; [RI; RT]; [RI; RM; RT]; [RI; IT; RT]; [RM; RM]].
 Definition step_triggers (n : nat) : list trigger := TB :: map TS (seq 0 (S n)).
-Definition open_kinds : list kind :=
-  flat_map (fun p => [Open false false p; Open true true p]) open_progs.
+(* the cardinality of an open() kind only selects how the request is sent (send_message(end=True) /
+   send_request(end=True)), which is atomic here: [outcome] does not look at it (open_cardinality_irrelevant
+   in Proofs/C02Proofs.v), so one representative per body is enumerated *)
+Definition open_kinds : list kind := map (fun p => Open false false p) open_progs.
 
 Definition prog_of (k : kind) : list op := match k with Open _ _ p => p | Call _ _ => [] end.
 Definition cases_of (maxd : nat) (k : kind) : list (list batch) :=
